@@ -268,8 +268,11 @@ Definition apply_events (fuel : nat) (t : table) (top : string) (mp : path) (ms 
                               end in
                     (ms', snd acc ++ ev)) es (ms, [])).
 
+(* loader._expand_wildcard: the exposed members of the target, its own unexpanded wildcard imports (`a/b/*` pseudo-members) excepted *)
+Definition importable_members (st : modst) : list (string * member) :=
+  filter (fun nm => match snd nm with MAlias _ _ true => false | _ => true end) (exposed_members st).
 Definition collect (st : modst) (tgt : path) (ln : nat) : list expanded_entry :=
-  map (fun nm => mkE (fst nm) (snd nm) (tgt ++ [fst nm]) ln) (exposed_members st).
+  map (fun nm => mkE (fst nm) (snd nm) (tgt ++ [fst nm]) ln) (importable_members st).
 
 Definition has_star (st : modst) : bool :=
   existsb (fun nm => match snd nm with MAlias _ _ true => true | _ => false end) (members st).
